@@ -12,12 +12,12 @@ PROPS["C05"] = {
     "claim": "Two REAL engines (initiator + acceptor, memory or file stores) are driven through generated fault histories (sends on both sides also while disconnected, "
              "deliveries, cuts losing everything in flight, reconnects, restarts on the file store, heartbeats) and compared event by event with the Lean two-engine model; "
              "the prefix monitor (delivered is a prefix of submitted, both directions) is evaluated after every operation and equality after settling. "
-             "Theorems: `C05_safety` — for ALL configurations (persistence on, resets off, mirrored CompIDs, same BeginString; everything else free) and ALL fault histories "
+             "Theorems: `C05_safety` — for ALL configurations (persistence on, resets off, EnableNextExpectedMsgSeqNum off, mirrored CompIDs, same BeginString; everything else free) and ALL fault histories "
              "with non-empty payload ids and sequence numbers within Go's int, delivered is a prefix of submitted in both directions (in order, exactly once, nothing unsent); "
              "`C05_invariant` (delivered = payloads of the peer's stored application messages below the expected number); meaning of the prefix clause and of the monitor's silence "
              "(`C05_monitor_silent_iff_safe`, `C05_monitor_settled_silent_iff`), faithfulness of the links, "
              "number round trip, per-engine delivery (C01). The statement without side conditions (`def C05_safety_full`) is FALSE of the model: an empty payload value is "
-             "refused as malformed by the peer and consumed (#guard counterexample + theorem `C05_empty_payload_is_consumed`); the generator never produces one. "
+             "refused as malformed by the peer and consumed (#guard counterexample + theorem `C05_empty_payload_is_consumed`); the generator never produces one. With EnableNextExpectedMsgSeqNum on both engines the statement is false as well: a Logon is answered with a gap fill over whatever the peer's tag 789 reports missing, nothing is replayed, messages lost in flight stay lost (#guard `cexNxHistory`; the real engines agree: corpus/C05/nx-gapfill-loses-messages.ops, cfg token nx=1 of the link family, never generated). "
              "Liveness: `C05_liveness_reconnect` — after EVERY fault history (ResendRequestChunkSize 0, roles fixed, ApplVerID under FIXT, head-room for the numbers) the schedule "
              "cut, connect, both Logons, one flush per side, deliveries ends with delivered = submitted in both directions, nothing in flight, both engines InSession "
              "(all gap cases); `C05_liveness_nogap` (no gap: delivering what is in flight suffices). The chunked case is NOT proved (`def C05_liveness_full`); it is sampled. "
